@@ -351,6 +351,13 @@ CORPUS_EXPRS = [
     ("b:< u:- L:1 L:0L", "-1 < 0L"),
     ("b:+ L:16777217 L:0.0f", "16777217 + 0.0f"),
     ("b:* L:0.1 L:3", "0.1 * 3"),
+    ("b:== L:0.1 L:0.1f", "0.1 == 0.1f"),                             # float is widened, not double narrowed
+    ("b:== L:16777217 L:16777216.0f", "16777217 == 16777216.0f"),     # int -> float rounds
+    ("b:< L:0.1f L:0.1", "0.1f < 0.1"),
+    ("b:+ L:0.1f L:0.2f", "0.1f + 0.2f"),
+    ("b:/ L:1 L:3.0", "1 / 3.0"),
+    ("b:* L:9007199254740993ull L:1.0", "9007199254740993ull * 1.0"),  # uint64 -> double rounds to even
+    ("t L:0.5 L:1 L:2", "0.5 ? 1 : 2"),
     ("b:/ L:1 L:0", "1 / 0"),                                         # trap (undefined in C++)
     ("b:% p b:- u:- L:2147483647 L:1 u:- L:1", "(-2147483647 - 1) % -1"),
 ]
@@ -374,6 +381,110 @@ def gen_P(r):
         return "P " + sign + float_literal(r)
     return "P " + sign + r.choice(["true", "false", "0x", "0b", "0b2", "x", "", "1e", "1.5e+", "08", "0x1G", "1uu", "1lll", "1ulu"]) \
         if False else "P " + sign + r.choice(["true", "false", "0x", "0b2", "x1", "1e", "08", "0x1G", "1uu", "1lll", "1ulu", "1.5.2"])
+
+
+# ----------------------------------------------------------------------------------------------- shrinking inside an expression
+
+def parse_prefix(toks):
+    """prefix tokens -> (tree with explicit ("p", e) nodes, rest)"""
+    t, rest = toks[0], toks[1:]
+    if t.startswith("L:"):
+        return ("L", t[2:]), rest
+    if t == "p":
+        e, rest = parse_prefix(rest)
+        return ("p", e), rest
+    if t.startswith("u:"):
+        e, rest = parse_prefix(rest)
+        return ("u", t[2:], e), rest
+    if t.startswith("b:"):
+        l, rest = parse_prefix(rest)
+        r, rest = parse_prefix(rest)
+        return ("b", t[2:], l, r), rest
+    if t == "t":
+        c, rest = parse_prefix(rest)
+        a, rest = parse_prefix(rest)
+        b, rest = parse_prefix(rest)
+        return ("t", c, a, b), rest
+    raise ValueError(t)
+
+
+def strip_parens(t):
+    if t[0] == "p":
+        return strip_parens(t[1])
+    if t[0] == "L":
+        return t
+    if t[0] == "u":
+        return ("u", t[1], strip_parens(t[2]))
+    if t[0] == "b":
+        return ("b", t[1], strip_parens(t[2]), strip_parens(t[3]))
+    return ("t", strip_parens(t[1]), strip_parens(t[2]), strip_parens(t[3]))
+
+
+def smaller(t):
+    """candidate replacements of tree t, smallest first: a child, or t with one sub-tree replaced"""
+    kids = children(t)
+    for k in kids:
+        yield k
+    if t[0] == "L" and t[1] not in ("0", "1"):
+        yield ("L", "1")
+        yield ("L", "0")
+    for i, k in enumerate(kids):
+        for k2 in smaller(k):
+            if t[0] == "u":
+                yield ("u", t[1], k2)
+            elif t[0] == "b":
+                yield ("b", t[1], k2, t[3]) if i == 0 else ("b", t[1], t[2], k2)
+            else:
+                parts = list(t[1:])
+                parts[i] = k2
+                yield ("t",) + tuple(parts)
+
+
+def shrink_violations(ck, hb, db, env, budget=60):
+    """ddmin in vlib works on op lines; a failing line still holds a whole expression tree.  Replace
+    sub-trees by their children / by 0 and 1 while the line keeps failing (the expected value is
+    recomputed by the host compilers for every candidate), and rewrite the replay file."""
+    for v in ck.violations:
+        if not v.get("found_input") or budget <= 0:
+            continue
+        try:
+            lines = read_replay(v["replay"])
+            es = [l for l in lines if l.startswith("E ")]
+            if len(es) != 1 or len(lines) != 1:
+                continue
+            toks = es[0].split()
+            pre = toks[2:toks.index(";")]
+            tree = strip_parens(parse_prefix(pre)[0])
+        except Exception:
+            continue
+        best, best_line = tree, es[0]
+        improved = True
+        while improved and budget > 0:
+            improved = False
+            for cand in smaller(best):
+                if size(cand) >= size(best) and cand[0] != "L":
+                    continue
+                budget -= 1
+                ptoks, text = render(None, cand, redundant=0)
+                exp = host_compiler(ck, [text], workers=1)[0]
+                if exp == "?":
+                    continue
+                line = "E %s %s ; %s" % (exp, " ".join(ptoks), text)
+                if ck._fails(hb, db, [line], env, None, None, None):
+                    best, best_line, improved = cand, line, True
+                    break
+                if budget <= 0:
+                    break
+        if best_line != es[0]:
+            im, om, mo = ck._eval(hb, db, [best_line], env, None, None, None)
+            what = ck._what("constfold", im, mo, om)
+            head = [l for l in open(v["replay"]) if l.startswith("##")]
+            with open(v["replay"], "w") as f:
+                f.write("".join(head[:1]))
+                f.write("## %s\n## impl:  %s\n## model: %s\n## (expression shrunk from: %s)\n" % (
+                    what.replace("\n", " "), " | ".join(im)[:300], " | ".join(mo)[:300], es[0][:400]))
+                f.write(best_line + "\n")
+            v["what"] = what
 
 
 # ----------------------------------------------------------------------------------------------- main
@@ -481,6 +592,7 @@ def main(argv):
     def nontrivial(h, impl):
         return any(l.startswith("E T:") for l in h) or any(l.startswith("P ") for l in h)
     ck.correspond(hb, db, hs, label="constfold", env=env, nontrivial=nontrivial, timeout=1800)
+    shrink_violations(ck, hb, db, env)
     cnt["expressions_evaluated_by_occa"] = len(corpus_lines) + len(known_lines) + len(gen_lines)
     ck.cov["evaluations"] = sum(len(h) for h in hs)
     ck.cov["distinct_nontrivial"] = len(set(l for h in hs for l in h if l.startswith("E T:")))
